@@ -441,9 +441,27 @@ impl<'de, R: ReadSlice<'de>> Deserializer<'de> for DatumDeserializer<'_, '_, R> 
 		// We can skip here for performance:
 		// - utf8 decoding of strings
 		// - block reads when serialized data provides serialized block size in bytes
+		// - conversion of decimals to numbers (which fails if they are too large for the
+		//   number type, although we don't care about their value)
 
 		match *self.schema_node {
-			SchemaNode::String => read_length_delimited(self.state, BytesVisitor(visitor)),
+			SchemaNode::String
+			| SchemaNode::BigDecimal
+			| SchemaNode::Decimal(Decimal {
+				repr: DecimalRepr::Bytes,
+				..
+			}) => read_length_delimited(self.state, BytesVisitor(visitor)),
+			SchemaNode::Decimal(Decimal {
+				repr: DecimalRepr::Fixed(ref fixed),
+				..
+			}) => self.state.read_slice(fixed.size, BytesVisitor(visitor)),
+			SchemaNode::Union(ref union) => Self {
+				schema_node: read_union_discriminant(self.state, union)?,
+				state: self.state,
+				allowed_depth: self.allowed_depth.dec()?,
+			}
+			// What's in the union is ignored as well
+			.deserialize_ignored_any(visitor),
 			SchemaNode::Array(elements_schema) => ArraySeqAccess {
 				elements_schema: elements_schema.as_ref(),
 				block_reader: BlockReader::new(self.state, true, self.allowed_depth.dec()?),
